@@ -21,6 +21,9 @@ CHECKS = {
  "C18": dict(design="3/C18", technique="mutation-based property testing (Hypothesis): one documented precondition violated per generated case (negative side) and boundary-stretching of valid inputs (positive side)",
              text="Negative side: 15 mutation operators, one per precondition enumerated in the property statement, applied to generated valid cases over 4 methods; oracle = an exception is raised and no result attribute (Etot, force, dm, q, Hf) of the molecule has been set. Positive side: templates scaled to 0.5-30 A, charges up to +-4, table-edge elements, three solvers; oracle = all results finite or the non-convergence flag set. Exploration: ~3000 cases per quick run.",
              note="Any Exception subclass counts as a loud rejection. Operators for preconditions the statement does not enumerate (element outside the table, active state beyond n_states) were removed after they turned out to be oracle over-reach."),
+ "C03": dict(design="3/C03", technique="property-based testing (Hypothesis) of residual invariants computed from the returned density with an independent NumPy Fock build; iteration-cap fault injection for the 'never silently converged' clause; deterministic loop-iteration monitor (sys.settrace) for termination",
+             text="Generated molecules and zero-padded batches (neutrals, ions, UHF radicals; MNDO/AM1/PM3) x solver lattice (fixed mixing alpha 0..0.9, adaptive, Pulay, SP2 1e-3..1e-7) x eps 1e-4..1e-11 x five kinds of starting density x iteration caps 1..1000. For every row flagged converged the harness recomputes symmetry, trace, charge sum, idempotency, commutator with the independently rebuilt Fock operator, distance to the aufbau projector of that operator and the energy functional, against bounds derived from the code's own stopping criterion and calibrated on the unchanged tree (margins 3-12x, reported per run). A monitor hit (SP2 loop > 2000 passes) is a termination violation. Exploration.",
+             note="Residuals rest on pv/refnddo.py (floor 2e-5 eV); only MNDO/AM1/PM3 rows of <= 20 orbitals; KSA solver not generated. 'Bounded time' is decided by loop-iteration counts on the explored inputs. SP2 non-termination for batches containing an anion is a recorded known finding."),
 }
 NOT_APPLICABLE = []
 def main():
